@@ -421,3 +421,13 @@ contract(
     ensures={"scores_of_this_X": "forall(range(1, n + 1), lambda T: payload(result)[T - 1] == CG(self._collective_saving.ghost_tok, self._point_saving.ghost_tok, T))"},
     props=["C03", "C10"],
 )
+
+contract(
+    target=f"{MVP}::MVCAPA._fit",
+    params={"self": "obj:MVCAPA", "self.min_segment_length": "int", "X": "real[n,p]", "y": "none"},
+    requires=["self.min_segment_length >= 2"],
+    # the only job of MVCAPA's fit: reject inadmissible training data (C14)
+    raises={"ValueError": "HASNAN(X) or n < self.min_segment_length"},
+    returns="=self",
+    props=["C14", "C10"],
+)
